@@ -73,6 +73,7 @@ def main():
         ("mean", lambda: X.mean(0), lambda: x.mean(0)),
         ("var", lambda: X.var(0), lambda: x.var(0)),
         ("std", lambda: Y.std(dim=0), lambda: y.std(dim=0)),
+        ("var_mean", lambda: sum(torch.var_mean(X, dim=0)), lambda: sum(torch.var_mean(x, dim=0))),
         ("min/max", lambda: torch.min(X) + torch.max(X), lambda: torch.min(x) + torch.max(x)),
         ("min2", lambda: torch.min(X, Y), lambda: torch.min(x, y)),
         ("clamp", lambda: torch.clamp(X, 0, 0.5), lambda: torch.clamp(x, 0, 0.5)),
